@@ -410,10 +410,11 @@ Lemma Inv_rephase g a tr t p' es :
   Inv g (upd_a a t p' []) (tr ++ Conc.tag t es).
 Proof.
   intros Hi L Hok Hst Hh.
-  apply (Inv_keep g g a tr t (own a t)); auto.
+  apply (Inv_keep g g a tr t (own a t)); [exact Hi| | |exact L|exact Hok| |].
   - apply touches_refl.
   - left. apply own_ok.
   - rewrite Hst. apply lp_ok_nil.
+  - rewrite Hh. reflexivity.
 Qed.
 
 (** ** push *)
@@ -426,7 +427,7 @@ Proof.
   intros g a tr Hi Hv. unfold view in Hv. cbn [a_st_next fst snd].
   pose proof (Inv_phase _ _ _ t Hi) as Hme. rewrite Hv in Hme. cbn in Hme. destruct Hme as [_ Hval].
   exists (upd_a a t (PPushL k v p) []). split; [|split; [apply frame_upd_a|]].
-  { apply (Inv_keep g _ a tr t (t, k)); auto.
+  { apply (Inv_keep g _ a tr t (t, k)); [exact Hi| | | | | |reflexivity].
     - apply touches_set_next.
     - left. rewrite Hv. split; reflexivity.
     - rewrite Hv. cbn. lia.
@@ -441,7 +442,7 @@ Proof.
     split; [apply (Inv_push_lp g a tr t k v p); auto|]. split; [apply frame_set_ph|].
     unfold view; cbn. rewrite set_ph_same. exact Q1.
   - exists (upd_a a t (PPushL k v p) []). split; [|split; [apply frame_upd_a|]].
-    { apply Inv_rephase; auto.
+    { apply Inv_rephase; [exact Hi| | | |reflexivity].
       - rewrite Hv. cbn. lia.
       - apply phase_ok_upd; [rewrite Hv; cbn; lia|]. rewrite <- Hv. now apply Inv_phase.
       - now rewrite Hv. }
@@ -456,7 +457,7 @@ Proof.
   (* node constructor *)
   intros g a tr Hi Hv. unfold view in Hv. cbn [a_node_init fst snd].
   exists (upd_a a t (PPushL k v None) []). split; [|split; [apply frame_upd_a|]].
-  { apply (Inv_keep g _ a tr t (t, k)); auto.
+  { apply (Inv_keep g _ a tr t (t, k)); [exact Hi| | | | | |reflexivity].
     - apply touches_node_init.
     - left. rewrite Hv. split; reflexivity.
     - rewrite Hv. cbn. lia.
@@ -466,7 +467,7 @@ Proof.
   (* m_Top.load *)
   intros g a tr Hi Hv. unfold view in Hv. cbn [a_ld_top fst snd].
   exists (upd_a a t (PPushL k v None) []). split; [|split; [apply frame_upd_a|]].
-  { apply Inv_rephase; auto.
+  { apply Inv_rephase; [exact Hi| | | |reflexivity].
     - rewrite Hv. cbn. lia.
     - apply phase_ok_upd; [rewrite Hv; cbn; lia|]. rewrite <- Hv. now apply Inv_phase.
     - now rewrite Hv. }
@@ -488,7 +489,7 @@ Proof.
   (* hazard slot store *)
   intros g a tr Hi Hv. unfold view in Hv. cbn [a_st_hp fst snd].
   exists (upd_a a t (PPopH k pCur) []). split; [|split; [apply frame_upd_a|]].
-  { apply (Inv_keep g _ a tr t (own a t)); auto.
+  { apply (Inv_keep g _ a tr t (own a t)); [exact Hi| | | | | |reflexivity].
     - apply touches_set_hp.
     - left. apply own_ok.
     - rewrite Hv. cbn. lia.
@@ -498,7 +499,7 @@ Proof.
   (* sync_.fetch_add *)
   intros g a tr Hi Hv. unfold view in Hv. cbn [a_faa_sync fst snd].
   exists (upd_a a t (PPopH k pCur) []). split; [|split; [apply frame_upd_a|]].
-  { apply Inv_rephase; auto.
+  { apply Inv_rephase; [exact Hi| | | |reflexivity].
     - rewrite Hv. cbn. lia.
     - apply phase_ok_upd; [rewrite Hv; cbn; lia|]. rewrite <- Hv. now apply Inv_phase.
     - now rewrite Hv. }
@@ -510,7 +511,7 @@ Proof.
   - apply ptr_eqb_spec in E. subst pCur. destruct (top g) as [n|] eqn:Etop.
     + (* validated a node *)
       exists (upd_a a t (PPopV k n) []). split; [|split; [apply frame_upd_a|]].
-      { apply Inv_rephase; auto.
+      { apply Inv_rephase; [exact Hi| | | |reflexivity].
         - rewrite Hv. cbn. lia.
         - cbn. split; auto. apply published_mono; [rewrite Hv; cbn; lia|].
           destruct Hi as (I1 & _ & I3 & _). destruct (chain_head _ _ _ n I1 Etop) as (r & Hs & _).
@@ -519,7 +520,7 @@ Proof.
       rewrite view_upd_a. reflexivity.
     + (* validated null: the linearization point of an empty pop *)
       exists (upd_a a t (PPopE k) [ELin t]). split; [|split; [apply frame_upd_a|]].
-      { apply (Inv_keep g g a tr t (own a t)); auto.
+      { apply (Inv_keep g g a tr t (own a t)); [exact Hi| | | | | |reflexivity].
         - apply touches_refl.
         - left. apply own_ok.
         - rewrite Hv. cbn. lia.
@@ -528,7 +529,7 @@ Proof.
           apply chain_nil in I1. rewrite I1. apply lp_ok_empty. }
       rewrite view_upd_a. reflexivity.
   - exists (upd_a a t (PPop k) []). split; [|split; [apply frame_upd_a|]].
-    { apply Inv_rephase; auto.
+    { apply Inv_rephase; [exact Hi| | | |reflexivity].
       - rewrite Hv. cbn. lia.
       - exact I.
       - now rewrite Hv. }
@@ -540,7 +541,7 @@ Proof.
   unfold protect. cbn [Conc.safe].
   intros g a tr Hi Hv. unfold view in Hv. cbn [a_ld_top fst snd ptr_of].
   exists (upd_a a t (PPop k) []). split; [|split; [apply frame_upd_a|]].
-  { apply Inv_rephase; auto.
+  { apply Inv_rephase; [exact Hi| | | |reflexivity].
     - rewrite Hv. cbn. lia.
     - exact I.
     - now rewrite Hv. }
@@ -564,7 +565,7 @@ Proof.
     cbn [Conc.safe]. intros g a tr Hi Hv. unfold view in Hv. cbn [a_ld_next fst snd ptr_of].
     pose proof (Inv_phase _ _ _ t Hi) as Hme. rewrite Hv in Hme. cbn in Hme. destruct Hme as [Hpub Hhp].
     exists (upd_a a t (PPopR k n (next g n)) []). split; [|split; [apply frame_upd_a|]].
-    { apply Inv_rephase; auto.
+    { apply Inv_rephase; [exact Hi| | | |reflexivity].
       - rewrite Hv. cbn. lia.
       - cbn. repeat split; auto. apply published_mono; [rewrite Hv; cbn; lia|auto].
       - now rewrite Hv. }
@@ -581,7 +582,7 @@ Proof.
       intros g a tr Hi Hv. unfold view in Hv. cbn [a_st_next fst snd].
       pose proof (Inv_phase _ _ _ t Hi) as Hme. rewrite Hv in Hme. cbn in Hme. destruct Hme as (Hpub & Hnin & Hval).
       exists (upd_a a t (PPopG k n v) []). split; [|split; [apply frame_upd_a|]].
-      { apply (Inv_keep g _ a tr t n); auto.
+      { apply (Inv_keep g _ a tr t n); [exact Hi| | | | | |reflexivity].
         - apply touches_set_next.
         - right. auto.
         - rewrite Hv. cbn. lia.
@@ -592,7 +593,7 @@ Proof.
       intros g a tr Hi Hv. unfold view in Hv. cbn [a_st_hp_rd fst snd].
       pose proof (Inv_phase _ _ _ t Hi) as Hme. rewrite Hv in Hme. cbn in Hme. destruct Hme as (Hpub & Hnin & Hval).
       exists (upd_a a t (PPopG k n v) []). split; [|split; [apply frame_upd_a|]].
-      { apply (Inv_keep g _ a tr t (own a t)); auto.
+      { apply (Inv_keep g _ a tr t (own a t)); [exact Hi| | | | | |reflexivity].
         - apply touches_set_hp.
         - left. apply own_ok.
         - rewrite Hv. cbn. lia.
@@ -603,7 +604,7 @@ Proof.
       intros g a tr Hi Hv. unfold view in Hv. cbn [a_ld_ret fst snd].
       pose proof (Inv_phase _ _ _ t Hi) as Hme. rewrite Hv in Hme. cbn in Hme. destruct Hme as (Hpub & Hnin & Hval).
       exists (upd_a a t (PPopG k n v) []). split; [|split; [apply frame_upd_a|]].
-      { apply (Inv_keep g _ a tr t (own a t)); auto.
+      { apply (Inv_keep g _ a tr t (own a t)); [exact Hi| | | | | |reflexivity].
         - apply touches_add_retired.
         - left. apply own_ok.
         - rewrite Hv. cbn. lia.
@@ -613,14 +614,14 @@ Proof.
       (* retire: store of current_ *)
       intros g a tr Hi Hv. unfold view in Hv. cbn [a_st_ret fst snd].
       exists (upd_a a t (PPopG k n v) []). split; [|split; [apply frame_upd_a|]].
-      { apply Inv_rephase; auto.
+      { apply Inv_rephase; [exact Hi| | | |reflexivity].
         - rewrite Hv. cbn. lia.
         - apply phase_ok_upd; [rewrite Hv; cbn; lia|]. rewrite <- Hv. now apply Inv_phase.
         - now rewrite Hv. }
       rewrite view_upd_a. cbn. exists n. reflexivity.
     + (* CAS failed: try again *)
       exists (upd_a a t (PPop k) []). split; [|split; [apply frame_upd_a|]].
-      { apply Inv_rephase; auto.
+      { apply Inv_rephase; [exact Hi| | | |reflexivity].
         - rewrite Hv. cbn. lia.
         - exact I.
         - now rewrite Hv. }
@@ -628,7 +629,7 @@ Proof.
   - (* empty: ~Guard *)
     cbn [Conc.safe]. intros g a tr Hi Hv. unfold view in Hv. cbn [a_st_hp fst snd].
     exists (upd_a a t (PPopE k) []). split; [|split; [apply frame_upd_a|]].
-    { apply (Inv_keep g _ a tr t (own a t)); auto.
+    { apply (Inv_keep g _ a tr t (own a t)); [exact Hi| | | | | |reflexivity].
       - apply touches_set_hp.
       - left. apply own_ok.
       - rewrite Hv. cbn. lia.
